@@ -153,6 +153,12 @@ class Prop(object):
                 # a photo of 9 kB: its subpacket length has two legal encodings (two-octet up to 16319, five-octet); the packet body is what is certified
                 img = b'\x10\x00\x01\x01' + bytes(12) + JPEG[:-2] + bytes(i * 7 & 0xFF for i in range(9000)) + JPEG[-2:]
                 ids.insert(1, ('uat', wire.sub_len_encode(len(img) + 1, shape['bigimage']) + b'\x01' + img))
+            elif shape.get('uat_kind'):
+                # attributes as other producers may write them: an image next to a subpacket of a private / experimental type (100..110), such a subpacket
+                # alone, two images in one attribute - the packet body, whatever it holds, is what was certified
+                priv = wire.sub_len_encode(21) + b'\x64' + bytes(range(0x40, 0x54))
+                ids.insert(1, ('uat', {'image+private': uat_hashdata(JPEG) + priv, 'private+image': priv + uat_hashdata(JPEG), 'private-only': priv,
+                                       'two-images': uat_hashdata(JPEG) + uat_hashdata(JPEG[:-2] + b'\x00\x01' + JPEG[-2:])}[shape['uat_kind']]))
             else:
                 ids.insert(1, ('uat', uat_hashdata(JPEG)))
         for i, (kind, data) in enumerate(ids):
@@ -201,7 +207,7 @@ class Prop(object):
                 extras = ('direct',)
             shape = dict(nuid=case['nuid'], nsub=case['nsub'], secret=case['secret'], uat=uat, nself=nself, third=third, revoke_uid=revoke_uid, extras=extras,
                          same_time=same_time, trust=trust, prim=('ed25519a' if idx % 3 else 'ecdsa_p256a') if idx % 5 else 'ecdsa_p256_x0', nonminimal=(idx % 4 == 1),
-                         bigimage=(None, 2, None, 5)[idx % 4] if uat else None, uid2=(idx // 2) % 4, kdf=[None, (10, 9), None, (8, 9), (9, 7)][idx % 5] if idx % 5 else None)
+                         bigimage=(None, 2, None, 5)[idx % 4] if uat else None, uat_kind=(None, 'image+private', 'private-only', None, 'two-images', 'private+image', None)[idx % 7] if uat else None, uid2=(idx // 2) % 4, kdf=[None, (10, 9), None, (8, 9), (9, 7)][idx % 5] if idx % 5 else None)
             if idx % 5 == 0:
                 # key material whose point coordinates have leading zero octets (fixed-width fields that an integer round trip would shorten)
                 shape['subnames'] = ['ecdh_p256_x0', 'ecdsa_p521_x0']
